@@ -60,6 +60,11 @@ def generate(rng, n, tier):
         for inner in QNAMES:
             for kind in ("field", "arith", "function", "case"):
                 yield {"cls": cls, "kind": kind, "shape": 0, "positions": ["nested_groupby"], "alias": "al", "inner_cls": inner}
+    # ORDER BY of a set operation refers to an alias its first operand defines: same lexical form as the definition
+    for cls in QNAMES:
+        for kind in ("field", "arith", "function", "case"):
+            for op in ("union", "intersect"):
+                yield {"cls": cls, "kind": kind, "shape": 0, "positions": ["setop_orderby"], "alias": "al", "setop": op}
     for _ in range(n):
         k = rng.randint(2, 4)
         yield {"cls": rng.choice(list(QNAMES)), "kind": rng.choice(list(KINDS)), "shape": rng.randint(0, 1),
@@ -97,6 +102,10 @@ def build(case):
         chain += ".having(%s)" % ("e" if is_crit else "(fn.Sum(t.a) > e)" if is_sub else "e < 5")
     if "orderby_sel" in pos or "orderby_unsel" in pos:
         chain += ".orderby(e)"
+    if pos == ["setop_orderby"]:
+        lines.append("q = %s.from_(t).select(t.b, e).%s(%s.from_(u).select(u.b, u.a.as_(%r))).orderby(e)"
+                     % (qn, case.get("setop", "union"), qn, case["alias"]))
+        return "\n".join(lines)
     if pos == ["nested_groupby"]:
         qi = QNAMES[case.get("inner_cls", case["cls"])]
         lines.append("inner = %s.from_(t).select(e, fn.Sum(t.x).as_('s')).groupby(e)" % qi)
@@ -116,6 +125,8 @@ def examine(case):
         pos = [p for p in pos if p != "orderby_unsel"]
     if pos == ["nested_groupby"]:
         return examine_nested(dict(case, positions=pos))
+    if pos == ["setop_orderby"]:
+        return examine_setop(dict(case, positions=pos))
     selected = any(p in pos for p in ("select", "groupby_sel", "orderby_sel"))
     if selected:
         pos = [p for p in pos if p not in ("groupby_unsel", "orderby_unsel")] + \
@@ -234,4 +245,41 @@ def examine_nested(case):
     if cls not in ("oracle", "mssql") and inner not in ("oracle", "mssql") and not grouped_by_alias:
         res.findings.append({"sig": {"kind": "groupby-alias-not-used", "term": case["kind"]},
                              "what": "GROUP BY does not refer to the selected alias under %s: %s" % (cls, text)})
+    return res
+
+
+def examine_setop(case):
+    """ORDER BY <aliased term> on a set operation: one definition per operand, one reference, all in the alias convention"""
+    res = Result()
+    src = build(case)
+    case["recipe"] = src
+    env = ns.ex(src)
+    q = env["q"]
+    text = str(q)
+    b = q.base_query
+    cls = case["cls"]
+    res.nontrivial = True
+    res.key = struct_hash(["setop", case["kind"], cls, case.get("setop")])
+    res.tags = ["kind=" + case["kind"], "cls=" + cls, "pos=setop_orderby"]
+    try:
+        res.requests.append(({"op": "render", "ctx": describe.d_ctx({}), "term": describe.describe(q)}, {"sql": text}, "str(set operation)"))
+    except Unsupported as ex:
+        res.skipped = str(ex)[:40]
+    try:
+        toks = sqlspec.lex(text, ident_quotes='"`')
+    except sqlspec.LexError as ex:
+        res.findings.append({"sig": {"kind": "lex", "term": case["kind"]}, "what": "unlexable: %s | %s" % (ex, text)})
+        return res
+    occ = [t for t in toks if t.kind == "id" and t.val == case["alias"]]
+    aq = b.ALIAS_QUOTE_CHAR or b.QUOTE_CHAR
+    if len(occ) != 3:
+        res.findings.append({"sig": {"kind": "alias-count", "term": case["kind"], "where": "setop"},
+                             "what": "alias occurs %d times, expected 2 definitions + 1 reference | %s" % (len(occ), text)})
+        return res
+    for i, t in enumerate(occ):
+        if t.quote != aq:
+            res.findings.append({"sig": {"kind": "alias-ref-quote" if i == 2 else "alias-quote", "term": case["kind"], "where": "setop"},
+                                 "what": "alias %s quoted %r, the %s alias convention is %r | %s"
+                                         % ("reference in ORDER BY" if i == 2 else "definition", t.quote, cls, aq, text)})
+            break
     return res
